@@ -494,7 +494,13 @@ func (w *hclW) mapExpr(kvs []KV) string {
 	if !w.use || len(kvs) == 0 || w.rng.Intn(2) == 0 {
 		return hclMapLit(kvs)
 	}
-	switch w.rng.Intn(3) {
+	switch w.rng.Intn(5) {
+	case 3: // a function call with literals only: no locals block is needed for it
+		k := w.rng.Intn(len(kvs) + 1)
+		return fmt.Sprintf("merge(%s, %s)", hclMapLit(kvs[:k]), hclMapLit(kvs[k:]))
+	case 4: // a local of the FIRST locals block that is itself computed by a function
+		k := w.rng.Intn(len(kvs) + 1)
+		return w.newLocal(fmt.Sprintf("merge(%s, %s)", hclMapLit(kvs[:k]), hclMapLit(kvs[k:])))
 	case 0: // merge(local.a, {rest})
 		k := 1 + w.rng.Intn(len(kvs))
 		a := w.newLocal(hclMapLit(kvs[:k]))
@@ -520,7 +526,13 @@ func (w *hclW) listExpr(xs []string) string {
 	if !w.use || len(xs) == 0 || w.rng.Intn(2) == 0 {
 		return hclListLit(xs)
 	}
-	switch w.rng.Intn(3) {
+	switch w.rng.Intn(5) {
+	case 3:
+		k := w.rng.Intn(len(xs) + 1)
+		return fmt.Sprintf("concat(%s, %s)", hclListLit(xs[:k]), hclListLit(xs[k:]))
+	case 4:
+		k := w.rng.Intn(len(xs) + 1)
+		return w.newLocal(fmt.Sprintf("concat(%s, %s)", hclListLit(xs[:k]), hclListLit(xs[k:])))
 	case 0:
 		k := w.rng.Intn(len(xs) + 1)
 		return fmt.Sprintf("concat(%s, %s)", w.newLocal(hclListLit(xs[:k])), hclListLit(xs[k:]))
